@@ -497,7 +497,7 @@ func c19Check(res *vfResult, ch c19Chan, st *c19State, final bool) {
 func init() {
 	vfRegister(&vfProp{
 		ID: "C19", Level: "exploration", ReplayClass: "decision-exact",
-		Rule: "case = 1-4 data channels with random parameters (label, protocol, ordered, maxRetransmits, maxPacketLifeTime, created by either side, before or after the offer) carrying 1-12 unique messages of 0..65535 bytes (text/binary) between two real connected PeerConnections; 30% of runs on a fault-free constant-delay network, 70% with seeded jitter/reordering, loss, duplication, corruption and partitions that stop after 2-12 s fake; non-trivial = the pair connected, distinct = hash of per-channel sent/received counts and fault configuration",
+		Rule: "case = 1-4 data channels with random parameters (label, protocol, ordered, maxRetransmits, maxPacketLifeTime, created by either side, before or after the offer) with an OnDataChannel handler that may take up to 2.5 s (fake) before it registers OnMessage, carrying 1-12 unique messages of 0..65535 bytes (text/binary) between two real connected PeerConnections; 30% of runs on a fault-free constant-delay network, 70% with seeded jitter/reordering, loss, duplication, corruption and partitions that stop after 2-12 s fake; non-trivial = the pair connected, distinct = hash of per-channel sent/received counts and fault configuration",
 		Real: []string{"webrtc PeerConnection/DataChannel/SCTPTransport/DTLSTransport/ICETransport (instrumented locks)", "pion/ice, dtls, sctp, datachannel, srtp, interceptor (unmodified)", "pion/transport vnet router"},
 		Stub: []string{"network: vnet router wrapped by the seeded per-datagram fate function (drop/dup/corrupt/delay/partition)", "signaling: in-process, non-trickle"},
 		Assumptions: []string{"liveness budget 60 s fake after the last fault; runs where ICE failed or the connection was lost are counted inconclusive for completeness, never for integrity",
